@@ -298,20 +298,28 @@ theorem unescape_quote_escape (f r : List Char) :
 
 /-! ## XOR hash -/
 
-theorem xorTerm_small : ∀ v : Fin 128, ∀ p : Fin 24, xorTerm v.val p.val < 32768 := by decide +kernel
+theorem xorTerm_table : ∀ v : Fin 128, ∀ p : Fin 15, xorTerm v.val p.val < 32768 := by decide +kernel
+
+theorem xorTerm_mod (v pos : Nat) : xorTerm v pos = xorTerm v (pos % 15) := by
+  unfold xorTerm
+  simp
+
+/-- every ASCII character contributes a 15-bit value, at any position -/
+theorem xorTerm_small (v pos : Nat) (hv : v < 128) : xorTerm v pos < 32768 := by
+  rw [xorTerm_mod]
+  exact xorTerm_table ⟨v, hv⟩ ⟨pos % 15, Nat.mod_lt _ (by omega)⟩
 
 theorem xorFold_lt : ∀ (runes : List Nat) (acc pos : Nat), acc < 32768 → (∀ v ∈ runes, v < 128) →
-    pos + runes.length ≤ 24 → xorFold acc pos runes < 32768 := by
+    xorFold acc pos runes < 32768 := by
   intro runes
   induction runes with
-  | nil => intro acc pos h _ _; exact h
+  | nil => intro acc pos h _; exact h
   | cons v vs ih =>
-    intro acc pos hacc hr hp
-    simp only [List.length_cons] at hp
+    intro acc pos hacc hr
     have hv : v < 128 := hr v (by simp)
-    have ht : xorTerm v pos < 32768 := xorTerm_small ⟨v, hv⟩ ⟨pos, by omega⟩
+    have ht : xorTerm v pos < 32768 := xorTerm_small v pos hv
     have hx : acc ^^^ xorTerm v pos < 2 ^ 15 := Nat.xor_lt_two_pow (by omega) (by omega)
-    exact ih (acc ^^^ xorTerm v pos) (pos + 1) (by omega) (fun u hu => hr u (by simp [hu])) (by omega)
+    exact ih (acc ^^^ xorTerm v pos) (pos + 1) (by omega) (fun u hu => hr u (by simp [hu]))
 
 /-! ## defined names -/
 
